@@ -104,6 +104,18 @@ def decide(spec, tier, seed):
         broken.append({"kind": "broken-obligation", "obligation": "axiom / forbidden-construct audit of %s" % spec.lean_module,
                        "detail": problems[:20]})
 
+    # source tie: the functions translated from today's source (Gen/Src.lean) are proved equal to the model
+    ties = None
+    stream_tier = tier
+    if ok and lean_ok and spec.src_ties:
+        ties = core.source_ties(spec.src_ties)
+        if ties["not_established"]:
+            notes.append("source_tie_not_established: the theorems `translated source = model` no longer check for %s; the "
+                         "correspondence check is the only tie for that code on this run, so it is run at the thorough size "
+                         "(for the calendars: the whole day-number domain of the property)" % ", ".join(sorted(ties["not_established"])))
+            stream_tier = "thorough"
+        log("[%s] source ties: %d modules established, %d not" % (pid, len(ties["established"]), len(ties["not_established"])))
+
     # correspondence + direct evaluation of the property on the real code
     rng = random.Random(seed * 1000003 + int(pid[1:]))
     results = []
@@ -118,7 +130,7 @@ def decide(spec, tier, seed):
         if rc_lc != 0:
             broken.append({"kind": "broken-obligation", "obligation": "leanchecker %s" % spec.lean_module, "detail": out_lc[-1500:]})
     if ok and os.path.exists(core.DRIVER):
-        streams = list(spec.streams(tier, rng))
+        streams = list(spec.streams(stream_tier, rng))
         cpath = os.path.join(core.VERIF, "corpus", pid + ".txt")
         if os.path.exists(cpath):
             groups = [[l for l in blk.splitlines() if l.strip() and not l.startswith("#")] for blk in open(cpath).read().split("\n\n")]
@@ -249,6 +261,9 @@ def decide(spec, tier, seed):
         samples.extend(r.samples[:3])
     obligations = len(thms) + n_examples + len(results) if lean_ok else max(1, len(results))
     discharged = (len([t for t in thms]) + n_examples if audit_ok else 0) + len([r for r in results if not r.mismatches and not r.crashed])
+    n_tie = sum(len(v["theorems"]) + v["examples"] for v in ties["established"].values()) if ties else 0
+    obligations += n_tie
+    discharged += n_tie
     ev = {
         "property_id": pid, "tier": tier, "seed": seed, "level": "proof",
         "coverage": {
@@ -280,6 +295,14 @@ def decide(spec, tier, seed):
                 "concurrent": {k: sum(getattr(r, "concurrent", {}).get(k, 0) for r in results)
                                for k in ("groups_asked_concurrently", "concurrent_calls", "requests_asked_concurrently_first")},
             },
+            "source_translation": ({
+                "what": "harness/cmd/extract/srcfn.go translates the integer fragment of the Go functions listed under translated_functions from "
+                        "/repo's current source into Lean definitions (Gen/Src.lean, `none` = panic); the theorems listed under established prove, "
+                        "for every argument in the stated domain, that each returns what the hand-written model returns, and restate the property "
+                        "about the translated code itself. A module under not_established no longer checks against today's source: no alarm by "
+                        "itself, the correspondence streams of this run were widened to the thorough size instead.",
+                "translated_functions": ties["translated_functions"],
+                "established": ties["established"], "not_established": ties["not_established"]} if ties else None),
             "known_findings_seen": {kid: n for kid, (k, n) in known_hits.items()},
             "broken": broken[:10],
             "notes": notes,
